@@ -74,6 +74,7 @@ fn report_violation(cfg: &RunCfg, v: Violation, stats: &Stats, t0: std::time::In
 fn check(cfg: &RunCfg) -> i32 {
     let t0 = timer();
     let mut stats = Stats::default();
+    let mut replay_trouble: Option<String> = None;
     // ---- replay tier: committed regression replays for this property
     let regress = verif_root().join("replays").join("regress");
     if let Ok(rd) = std::fs::read_dir(&regress) {
@@ -90,14 +91,15 @@ fn check(cfg: &RunCfg) -> i32 {
                     return 1;
                 }
                 Err(e) => {
-                    eprintln!("INCONCLUSIVE: regression replay {} could not be run: {}", f.display(), e);
-                    return 2;
+                    // a real violation found by the generated search outranks this; only if nothing else is
+                    // found does the check end inconclusive
+                    replay_trouble = Some(format!("regression replay {} could not be run: {}", f.display(), e));
                 }
             }
         }
     }
     let legs = registry::legs(&cfg.id);
-    let mut inconclusive: Option<String> = None;
+    let mut inconclusive: Option<String> = replay_trouble;
     for (i, leg) in legs.iter().enumerate() {
         let mut ls = Stats::default();
         let out = run_leg(cfg, i, leg, &mut ls);
